@@ -802,6 +802,23 @@ class Interp:
                     if self.sym is not None and b[0] == "bufobj":
                         self.sym.delete(self, b, t.slice, env, depth)
                         continue
+                    if b[0] == "c" and isinstance(b[1], (bytearray, list)):
+                        # a constant that is a mutable object (bytearray(...) of constants): changed in place
+                        if isinstance(t.slice, ast.Slice):
+                            parts_ = [self.concrete(self.expr(x_, env, depth)) if x_ is not None else C_NONE for x_ in (t.slice.lower, t.slice.upper, t.slice.step)]
+                            if all(p_[0] == "c" and (p_[1] is None or isinstance(p_[1], int)) for p_ in parts_):
+                                del b[1][slice(parts_[0][1], parts_[1][1], parts_[2][1])]
+                                continue
+                        else:
+                            k_ = self.concrete(self.expr(t.slice, env, depth))
+                            if k_[0] == "c" and isinstance(k_[1], int):
+                                try:
+                                    del b[1][k_[1]]
+                                except IndexError as x_:
+                                    raise _Raise(("ext", "IndexError", []), "IndexError: %s" % x_)
+                                continue
+                        self.notes.append("unmodelled deletion: " + unparse(s))
+                        continue
                     k = self.concrete(self.expr(t.slice, env, depth))
                     if b[0] == "node" and k[0] == "c":
                         b[1].attrs.pop(k[1], None)
@@ -812,6 +829,13 @@ class Interp:
                         del b[1][_dyn_find(b[1], self.expr(t.slice, env, depth))]
                     elif b[0] == "list" and k[0] == "c" and isinstance(k[1], int) and not (len(b) > 2 and b[2]) and -len(b[1]) <= k[1] < len(b[1]):
                         del b[1][k[1]]
+                    elif b[0] == "list" and isinstance(t.slice, ast.Slice) and not (len(b) > 2 and b[2]):
+                        # del lst[a:b]: bounds must be constants
+                        parts_ = [self.concrete(self.expr(x_, env, depth)) if x_ is not None else C_NONE for x_ in (t.slice.lower, t.slice.upper, t.slice.step)]
+                        if all(p_[0] == "c" and (p_[1] is None or isinstance(p_[1], int)) for p_ in parts_):
+                            del b[1][slice(parts_[0][1], parts_[1][1], parts_[2][1])]
+                        else:
+                            self.notes.append("unmodelled deletion from a list: " + unparse(s))
                     elif b[0] == "list":
                         self.notes.append("unmodelled deletion from a list: " + unparse(s))
         elif isinstance(s, ast.Break):
@@ -1559,6 +1583,9 @@ class Interp:
             v_ = self.node_attr(self._attrs_of_node(container), item)
             if v_[0] in ("atom", "c"):
                 return self.concrete(v_) != C_NONE
+        if container[0] == "c" and isinstance(container[1], (tuple, list)) and item[0] == "c" and isinstance(item[1], (str, bytes)) and len(container[1]) > 32:
+            # a long table of constants asked about a constant string: Python's own comparison (strings equal no other type)
+            return any(type(x) is type(item[1]) and x == item[1] for x in container[1])
         if container[0] == "c" and isinstance(container[1], (tuple, list, str, dict, set, frozenset)):
             elems = [("c", x) for x in container[1]] if not isinstance(container[1], str) else None
             if elems is None:
@@ -1572,6 +1599,8 @@ class Interp:
                 for x in container[1]:
                     if x[0] == "c":
                         self.note_const(item[1], x[1])
+            if item[0] == "c" and isinstance(item[1], (str, bytes)) and len(container[1]) > 32 and all(x[0] == "c" for x in container[1]):
+                return any(type(x[1]) is type(item[1]) and x[1] == item[1] for x in container[1])
             return any(self.equal(item, x, text) for x in container[1])
         if container[0] == "dict" and not (len(container) > 2 and container[2]):
             if not container[1]:
@@ -2197,7 +2226,7 @@ class Interp:
                 pass
         if name in ("bytes", "bytearray") and a0 is not None and a0[0] == "list" and not (len(a0) > 2 and a0[2]) and len(args) == 1 \
                 and all(x[0] == "c" and isinstance(x[1], int) and not isinstance(x[1], bool) and 0 <= x[1] < 256 for x in a0[1]):
-            return ("c", bytes(x[1] for x in a0[1]))
+            return ("c", bytes(x[1] for x in a0[1]) if name == "bytes" else bytearray(x[1] for x in a0[1]))
         if name in ("str", "bytes", "bytearray", "int", "float", "bool") and a0 is None and not kwargs:
             import builtins
             return ("c", getattr(builtins, name)())         # the empty value of the type (a fresh, empty bytearray)
@@ -2350,6 +2379,15 @@ class Interp:
             items = self.iterate(args[1])
             if items is not None and len(items) <= 4096:
                 return ("list", [self.apply(args[0], [x], {}, env, depth + 1, e) for x in items])
+        if name == "map" and len(args) == 2 and args[0][0] == "ext" and not args[0][2] and args[0][1] in ("chr", "ord", "str", "int", "len", "bool", "float", "abs", "hex", "bytes", "repr"):
+            items = self.iterate(self.force(args[1]))
+            if items is not None and len(items) <= 1 << 20 and all(x[0] == "c" for x in items):
+                # a pure builtin mapped over constants: computed
+                import builtins as _b
+                try:
+                    return ("list", [("c", getattr(_b, args[0][1])(x[1])) for x in items])
+                except (ValueError, TypeError, OverflowError) as x_:
+                    raise _Raise(("ext", type(x_).__name__, []), "%s: %s" % (type(x_).__name__, x_))
         if name in ("range", "enumerate", "zip", "map", "filter", "iter", "min", "max", "sum", "any", "all"):
             return ("fn", name, list(args))
         if name == "print":
@@ -2626,6 +2664,10 @@ class Interp:
                     r = getattr(rc[1], name)(*[a[1] for a in args])
                     if isinstance(r, (str, bytes, int, bool, float, type(None), tuple, list)):
                         return ("c", r)
+                except (ValueError, IndexError, KeyError, UnicodeError, OverflowError, ZeroDivisionError) as x_:
+                    if isinstance(rc[1], (str, bytes, bytearray, tuple)) and hasattr(rc[1], name):
+                        # a method of a constant with constant arguments raises exactly what Python raises ('abc'.index('@'))
+                        raise _Raise(("ext", type(x_).__name__, []), "%s: %s" % (type(x_).__name__, x_))
                 except Exception:
                     pass
             if name == "join" and args:
